@@ -70,6 +70,7 @@ type Exec struct {
 	extUsed, uncontracted, trustedUsed, ifaceUsed map[string]bool
 	havocAllCount int
 	specErrs []string
+	pureMemo map[string]pureMemo
 }
 
 func (x *Exec) freshVar(hint string, s Sort) *Term {
@@ -555,6 +556,49 @@ func (x *Exec) newRef(st *State, hint string) *Term {
 func (x *Exec) enterFacts(st *State, v *Term, t types.Type) {
 	st.add(rangeFacts(v, t)...)
 	x.allocFacts(st, v, t)
+	x.typeInvFacts(st, v, t)
+}
+
+// typeInvFacts: a non-nil pointer to a struct with a declared type invariant satisfies it.
+// (The invariant's fields are written only while the object is under construction: static
+// obligation typeinv-immutable; it is established by every allocating function: typeinv.)
+func (x *Exec) typeInvFacts(st *State, v *Term, t types.Type) {
+	pt, ok := t.Underlying().(*types.Pointer)
+	if !ok {
+		return
+	}
+	for _, ti := range x.P.typeInvsOf(pt.Elem()) {
+		env := &Env{x: x, st: st, old: st, fn: x.fn, binds: map[string]specBinding{"self": {Val{T: v}, t}}, mode: "typeinv", pkg: x.P.pkgByPath(ti.Pkg)}
+		r := env.eval(ti.Clause.Expr)
+		if env.err != nil {
+			x.specError(ti.Clause.Expr, env.err)
+			continue
+		}
+		st.add(Implies(Neq(v, Zero), r.T))
+	}
+}
+
+func (P *Program) typeInvsOf(t types.Type) []*TypeInv {
+	n, ok := types.Unalias(t).(*types.Named)
+	if !ok || n.Obj().Pkg() == nil {
+		return nil
+	}
+	var out []*TypeInv
+	for _, ti := range P.Spec.TypeInvs {
+		if ti.Pkg == n.Obj().Pkg().Path() && ti.Type == n.Obj().Name() {
+			out = append(out, ti)
+		}
+	}
+	return out
+}
+
+func (P *Program) pkgByPath(path string) *types.Package {
+	for _, p := range P.Pkgs {
+		if p.PkgPath == path {
+			return p.Types
+		}
+	}
+	return nil
 }
 
 func (x *Exec) allocFacts(st *State, v *Term, t types.Type) {
@@ -606,7 +650,7 @@ func (x *Exec) havoc(st *State, keys map[string]bool) {
 					st.add(Ge(st.ghost[g], old))
 				}
 			}
-			st.ghost[ghSpawn+"$*"] = x.freshVar("spawnepoch", SInt)
+			st.bump["#spawnver"]++
 		case k == ghLast:
 			for h := range st.heap {
 				if strings.HasPrefix(h, ghLast) {
